@@ -52,6 +52,11 @@ Theorem C16_accepts_finite_layers : forall n fin0 Cinf0 D c, part_ext n D = Some
 Proof. exact object_accepts_finite_layers. Qed.
 Print Assumptions C16_accepts_finite_layers.
 
+(* strict mode: the object of a strongly consistent base (empty infinity layer) accepts every conditional of the base *)
+Theorem C16_accepts_strict_base : forall n D P c, part_strict n D = Some P -> In c D -> obj_accept n P [] c = true.
+Proof. exact object_accepts_strict_base. Qed.
+Print Assumptions C16_accepts_strict_base.
+
 (* SOURCE TIE.  py_SystemZPreOCF_z_part2ocf (with _rec_z_rank) is GENERATED on every run from /repo's preocf.py
    (coq/gen/SrcZocf.v): for every signature size, non-empty partition and world of the signature it returns the
    Z-rank kz of the world, the descending recursion terminating within one round per layer. *)
